@@ -104,6 +104,40 @@ iteration:
 	return fields
 }
 
+// dominantFields applies the rule encoding/json follows when several fields, declared or promoted
+// from embedded structs, share a JSON name: the least nested one wins; among several at that depth
+// the only tagged one wins; otherwise none of them is encoded.
+func dominantFields(fields []theFieldInfo) []theFieldInfo {
+	byName := make(map[string][]theFieldInfo, len(fields))
+	for _, f := range fields {
+		byName[f.JSONName] = append(byName[f.JSONName], f)
+	}
+	result := fields[:0]
+	for _, f := range fields {
+		sameName := byName[f.JSONName]
+		if len(sameName) == 1 {
+			result = append(result, f)
+			continue
+		}
+		dominant, tagged, atDepth := true, 0, 0
+		for _, other := range sameName {
+			switch {
+			case len(other.Index) < len(f.Index):
+				dominant = false
+			case len(other.Index) == len(f.Index):
+				atDepth++
+				if other.HasJSONTag {
+					tagged++
+				}
+			}
+		}
+		if dominant && (atDepth == 1 || (f.HasJSONTag && tagged == 1)) {
+			result = append(result, f)
+		}
+	}
+	return result
+}
+
 type sortableFieldInfos []theFieldInfo
 
 func (list sortableFieldInfos) Len() int {
